@@ -274,8 +274,8 @@ def reg_op(rng, role, h):
 
 def generate(rng, tier):
     if tier == "quick":
-        yield from exhaustive(3, EXH_POOLS[:1])
-        n = 2400
+        yield from exhaustive(3, EXH_POOLS)
+        n = 4000
     elif tier == "thorough":
         yield from exhaustive(4, EXH_POOLS[:1])
         yield from exhaustive(3, EXH_POOLS[1:])
